@@ -215,6 +215,7 @@ Lemma decode_cbor_kind cc w b c : decode_cbor cc w b = DOk c ->
   (c_kind c = K1 /\ c_canon c = prof1 cc) \/ (c_kind c = K2 /\ c_canon c = prof2 cc).
 Proof.
   unfold decode_cbor. destruct (parse_all b) as [t|]; [|discriminate].
+  destruct (strip_tags t); try discriminate.
   destruct (decode_selector t) as [name| |]; try discriminate.
   match goal with |- (if ?x then _ else _) = _ -> _ => destruct x end.
   - intro D. left. apply decode_into_keeps in D. exact D.
